@@ -93,50 +93,53 @@ harness!(c13_extrapolate_with_bound, 8, |s| {
     cover!(njobs == 4 && delta - 1 > d[0] + d[1], "given bound dominates the extrapolation");
 });
 
-// ---- ExtrapolatingCurve: every query answers like an eagerly extrapolated Curve,
-// whatever was queried before (on it or on a clone sharing the cache); the
-// prefix is one of a few concrete shapes (container sizes must be concrete,
-// DESIGN.md 2.1 item 2), the query history is symbolic
-fn history_body(s: &mut Src, d0: u64, d1: u64, queries: usize) {
+// ---- ExtrapolatingCurve: a query answers like an eagerly extrapolated Curve.
+// Only single-query instances are within reach: any second extrapolation of the
+// shared `Rc<RefCell<Curve>>` (a history of one earlier query, concrete or
+// symbolic, on the object or on a clone) makes the vector length symbolic and
+// CBMC runs out of memory (> 23 GB for arguments <= 3), DESIGN.md section 8.
+// The prefix is one of a few concrete shapes, the query argument symbolic.
+fn single_query_body(s: &mut Src, d0: u64, d1: u64, via_clone: bool) {
     let d = [d0, d1, 0, 0];
     let cached = ExtrapolatingCurve::new(mk_curve(&d, 2));
-    let clone = cached.clone();
-    let mut q = 0;
-    while q < queries {
-        let kind = s.bits(3);
-        let x = s.bits(7);
-        if kind == 0 {
-            let _ = cached.number_arrivals(Duration::from(x));
-        } else if kind == 1 {
-            let _ = clone.number_arrivals(Duration::from(x));
-        } else if kind == 2 {
-            // pull a few items of steps_iter (which extrapolates, too)
-            let mut it = clone.steps_iter();
-            let _ = it.next();
-            let _ = it.next();
-            if x >= 4 {
-                let _ = it.next();
-            }
-        }
-        q += 1;
+    let x = s.bits(7);
+    let got = if via_clone {
+        // the clone shares the cache
+        let c2 = cached.clone();
+        na(&c2, x)
+    } else {
+        na(&cached, x)
+    };
+    let mut eager = mk_curve(&d, 2);
+    eager.extrapolate(Duration::from(x + 1));
+    assert!(got == na(&eager, x));
+    cover!(x >= 6 && got >= 3, "query at delta >= 6");
+}
+harness!(c13_cache_1_2, 12, |s| { single_query_body(s, 1, 2, false); });
+harness!(c13_cache_0_1, 12, |s| { single_query_body(s, 0, 1, false); });
+harness!(c13_cache_2_5, 12, |s| { single_query_body(s, 2, 5, false); });
+harness!(c13_cache_1_3_clone, 12, |s| { single_query_body(s, 1, 3, true); });
+
+pub fn register(t: &mut Table) {
+    reg!(t;
+        c13_extrapolate_within, c13_extrapolate_beyond_b, c13_extrapolate_conservative,
+        c13_extrapolate_steps, c13_extrapolate_with_bound,
+        c13_cache_1_2, c13_cache_0_1, c13_cache_2_5, c13_cache_1_3_clone,
+    );
+}
+
+harness!(x13_steps_then_query, 12, |s| {
+    let d = [1u64, 2, 0, 0];
+    let cached = ExtrapolatingCurve::new(mk_curve(&d, 2));
+    {
+        let mut it = cached.steps_iter();
+        let _ = it.next();
+        let _ = it.next();
+        let _ = it.next();
     }
     let x = s.bits(7);
     let got = na(&cached, x);
     let mut eager = mk_curve(&d, 2);
     eager.extrapolate(Duration::from(x + 1));
     assert!(got == na(&eager, x));
-    cover!(x >= 6 && got >= 3, "final query at delta >= 6");
-}
-harness!(c13_history_1_2_q1, 12, |s| { history_body(s, 1, 2, 1); });
-harness!(c13_history_0_1_q1, 12, |s| { history_body(s, 0, 1, 1); });
-harness!(c13_history_2_5_q1, 12, |s| { history_body(s, 2, 5, 1); });
-harness!(c13_history_1_2_q2, 12, |s| { history_body(s, 1, 2, 2); });
-harness!(c13_history_2_5_q2, 12, |s| { history_body(s, 2, 5, 2); });
-
-pub fn register(t: &mut Table) {
-    reg!(t;
-        c13_extrapolate_within, c13_extrapolate_beyond_b, c13_extrapolate_conservative,
-        c13_extrapolate_steps, c13_extrapolate_with_bound,
-        c13_history_1_2_q1, c13_history_0_1_q1, c13_history_2_5_q1, c13_history_1_2_q2, c13_history_2_5_q2,
-    );
-}
+});
